@@ -89,6 +89,9 @@ static void rmtree(const std::string& d)
 
 int main()
 {
+	// the global logger is not the subject here: library threads that log through it allocate from FastFlow's per-thread allocator, whose
+	// deregistration at thread exit is occasionally reported by ASan (heap-use-after-free in ff/allocator.hpp) - keep it silent
+	FIX8::GlobalLogger::set_levels(FIX8::Logger::Levels(FIX8::Logger::None));
 	char tmpl[] = "/tmp/verif_store_XXXXXX";
 	g_dir = mkdtemp(tmpl);
 	Persister *p(nullptr); FP *fp(nullptr); bool isfile(false); unsigned rot(0);
